@@ -31,4 +31,10 @@ func init() {
 			"R-OP4 numeric identity NodeType==InstOp and family strides used by retyping arithmetic; R-OP5 debug tables; R-STK grouping-stack balance of every emitFragment bracket pair. " +
 			"This is a necessary condition of C01 (a desynchronised stream breaks every pattern using the opcode); the search semantics themselves are not decided.",
 	})
+	register(&Prop{
+		ID:    "C10",
+		Rules: []func(*core.Ctx){RGuard},
+		Explanation: "R-GUARD: abstract interpretation (lower bound on charsRight(), difference bounds for mirror variables, saved positions) over go/cfg of every function of package syntax that uses the parser's position primitives: each pattern read is proven to be preceded on every path by a sufficient length test; who-may-index p.pattern / who-may-write currentPos; _category index bounds. " +
+			"Decides the parser part of 'no panic on any pattern'. Not decided: index arithmetic outside the parser, non-termination.",
+	})
 }
